@@ -138,6 +138,10 @@ def main(argv):
             scripts = scripts_for(has_reply(call, kind in ("ClientDnr", "PooledDnr")), rng, ctx.thorough)
             if kind not in ("Client", "Pooled") and not ctx.thorough:
                 scripts = scripts[::3] if kind.startswith("Hash") else scripts[::2]
+            # faults that are not Exceptions (C10 studies them in depth; the ownership clause itself does not care what kind of fault it was)
+            if has_reply(call, kind in ("ClientDnr", "PooledDnr")):
+                scripts = scripts + [{"recv_fault": (pos, bk), "chunk": "bytes"} for bk, pos in (("kbd", 0), ("interrupt", 1), ("sysexit", 3))]
+            scripts = scripts + [{"send_fault": "interrupt"}]
             for si, script in enumerate(scripts):
                 for warm in ((False, True) if (kind in ("Client", "ClientIgn") or ctx.thorough) else (bool((oi + si) % 2),)):
                     seq = []
@@ -151,6 +155,20 @@ def main(argv):
                     ctx.case((kind, oi, si, warm), sample={"class": kind, "calls": [c["op"] for c, _ in seq], "script": repr(script)} if n in (50, 3000) else None)
                     ctx.count("class:" + kind)
                     ctx.count("script:" + (next(iter(script)) if script else "healthy"))
+    # keys that try to carry a second command: they must be refused before anything is written - if one got through, the reply to the smuggled
+    # command would be left on the connection for the next call
+    hostile = [{"op": "get", "k": "nokey\r\nversion"}, {"op": "get", "k": b"nokey\nversion"}, {"op": "delete", "k": "a\r\ndelete b", "nr": False},
+               {"op": "set", "k": "x\r\nversion", "v": b"1", "nr": False}, {"op": "touch", "k": "k\r\nversion", "e": 0, "nr": False},
+               {"op": "get_many", "ks": ["a", "b\r\nget c"]}, {"op": "incr", "k": "n\tversion", "d": 1, "nr": False}, {"op": "gets", "k": "g\rversion"},
+               {"op": "delete_many", "ks": ["a", "b\r\nversion"], "nr": True}, {"op": "set", "k": "x\r\nversion", "v": b"1", "nr": True}]
+    for kind in kinds:
+        for hi, call in enumerate(hostile):
+            for chunkmode in ("bytes", "rand"):
+                seq = [({"op": "set", "k": "a", "v": b"7", "nr": False}, {}), (call, {"chunk": chunkmode}), (followups[hi % len(followups)], {"chunk": chunkmode}),
+                       (followups[(hi + 3) % len(followups)], {}), ({"op": "version"}, {})]
+                run_sequence(ctx, kind, classes, seq, rng, model_lines if kind in ("Client", "ClientDnr", "ClientIgn") else None, model_meta)
+                ctx.case(("hostile-key", kind, hi, chunkmode))
+                ctx.count("hostile-keys")
     # random sequences with several scripted calls
     for _ in range(20000 if ctx.thorough else 1500):
         kind = rng.choice(kinds)
